@@ -880,6 +880,16 @@ struct LifecycleEngine : Engine
 			if (rng.chance(0.5)) add("read", k_nc + 0, 0, 0, 1000);
 			for (int k = 0; k < 3; ++k) add("write", 0, int64_t(rng.range(1, 2)), 0, 30000000);
 		}
+		if (cls >= 0.50 && cls < 0.56)
+		{
+			// a writable-wait deferred behind a send backlog (small send buffer), and an event boundary inside the window in
+			// which the socket is writable again but the deferred wait has not completed yet
+			add("udp_bind", 0, 1, 0, 0);
+			add("udp_bind", 1, 0, 0, 0);
+			add("udp_send", 0, 1, 11, 0);
+			add("udp_recv", 0, 3, 0, 0);
+			add("timer", int64_t(rng.below(2)), rng.pick(std::vector<int64_t>{20000, 25000, 30000, 35000}), 0, 0);
+		}
 		bool const tcp_part = rng.chance(0.75);
 		bool const late_listen = rng.chance(0.15);
 		if (tcp_part && !late_listen) add("listen", 0, 0, 0, 0);
@@ -965,10 +975,24 @@ struct LifecycleEngine : Engine
 		// 2. every boundary (stride-sampled when long) x intervention x object
 		size_t const maxb = size_t(std::max<int64_t>(10, plan.c("max_boundaries", 160)));
 		size_t const stride = N > maxb ? (N + maxb - 1) / maxb : 1;
+		// when there are more boundaries than the budget: every boundary at which the set of outstanding operations or
+		// of live objects differs from the one before it (something was started, completed or created there), then
+		// the others at a fixed stride
+		std::set<size_t> chosen;
+		auto same = [](std::vector<Obj> const& a, std::vector<Obj> const& b) {
+			if (a.size() != b.size()) return false;
+			for (size_t i = 0; i < a.size(); ++i) if (a[i].kind != b[i].kind || a[i].idx != b[i].idx) return false;
+			return true;
+		};
+		if (stride > 1)
+			for (size_t k = 1; k < N && chosen.size() < maxb; ++k)
+				if (!same(cleanw->step_busy[k], cleanw->step_busy[k - 1]) || !same(cleanw->step_alive[k], cleanw->step_alive[k - 1])) chosen.insert(k);
+		for (size_t k = 0; k < N; k += stride) chosen.insert(k);
 		uint64_t interventions = 0;
 		std::set<std::pair<int, int>> kinds_hit;
-		for (size_t k = 0; k < N && !ctx.violated; k += stride)
+		for (size_t k : chosen)
 		{
+			if (ctx.violated) break;
 			std::vector<Obj> const& targets = c04 ? cleanw->step_busy[k] : cleanw->step_alive[k];
 			for (Obj const& o : targets)
 			{
